@@ -81,7 +81,11 @@ def atom_lists(pool):
     near = st.lists(st.sampled_from([s for s in NEAR_CH]).map(lambda s: [s, 0, 0]), min_size=1, max_size=5,
                     unique_by=lambda x: tuple(x))
     anyatoms = st.lists(pool.atom(), min_size=1, max_size=5)
-    base = st.one_of(family, ions, hydrogens, near, anyatoms)
+    carbons = of_element("C", 3)
+    organic = st.tuples(st.sampled_from([[["C", 0, 0]], [["C", 0, 0], ["H", 0, 0]], [["C", 13, 0], ["H", 0, 0]],
+                                         [["C", 0, 0], ["D", 0, 0]], [["C", 0, 0], ["H", 0, 1]]]), near
+                        ).map(lambda t: t[0] + [x for x in t[1] if x not in t[0]])
+    base = st.one_of(family, ions, hydrogens, near, anyatoms, organic, carbons)
     return st.tuples(base, st.one_of(st.just([]), near, anyatoms, family)).map(lambda t: t[0] + t[1])
 
 
@@ -367,8 +371,8 @@ def task_multisets(ctx, n):
 
 def tasks(tier):
     if tier == "quick":
-        return [("multisets-%d" % k, task_multisets, dict(n=500)) for k in range(6)]
-    return [("multisets-%d" % k, task_multisets, dict(n=12000)) for k in range(16)]
+        return [("multisets-%d" % k, task_multisets, dict(n=375)) for k in range(8)]
+    return [("multisets-%d" % k, task_multisets, dict(n=10000)) for k in range(16)]
 
 
 def replay(ctx, case):
